@@ -219,6 +219,18 @@ class C14(Prop):
             out += ['check c14 f %s' % q for q in QUERIES] + ['check c14-nav f', 'snap f', 'q f counts', 'q f euler']
             # stepping through the whole index set, compared with the model
             out += ['min f', 'q f getindex'] + ['next f', 'q f simplices 0', 'q f counts'] * 4 + ['prev f', 'q f getindex'] * 2 + ['max f', 'q f getindex']
+            if i % 4 == 1:
+                # a bulk add into the filtration that is refused half-way (the second source point is a name the filtration
+                # uses, at whatever index): whatever got in before the refusal, the filtration still answers as its snapshot
+                # (implementation + oracle: the last thing in the script, the model does not follow)
+                w_ = impl.ImplWorld()
+                for l in lines: w_.exec(l)
+                f_ = w_.vars.get('f')
+                alln = list(impl.SimplicialComplex.simplices(f_)) if f_ is not None else []
+                if alln:
+                    out += ['! new z', '! add z [ ] sFRESHPOINT -', '! add z [ ] %s -' % tok(rnd.choice(alln)), '! addfrom f z -']
+                    out += ['check c14 f %s' % q for q in QUERIES] + ['check c14-nav f']
+                    out += ['! setindex f %s' % idx_tok(rnd.choice(list(f_.indices()))), 'check c13-begin-index f'] + ['check c14 f %s' % q for q in QUERIES]
             scripts.append(out)
             if big:
                 # the same large filtration over an index set of tuples / exact fractions (and unusual name types)
